@@ -1,7 +1,7 @@
 (* C14 -- Completion replaces only the word being completed and can always be backed out.
    Property theorems only. Circular mode: Editor.show_candidate is what round i shows,
    Editor.circular_branch what the key read then does ([rec] = the rest of the loop). *)
-From RL Require Import UData LineBuffer Undo Editor EditorRun UndoProofs CompleteProofs CompleteLoop.
+From RL Require Import UData LineBuffer Undo Editor EditorRun UndoProofs CompleteProofs CompleteLoop NestedGroupUndo.
 
 (* round i < n: only the span between the reported start and the cursor is rewritten -- the text before
    (l) and after (r) is intact, the cursor is after the candidate *)
@@ -125,6 +125,32 @@ Theorem C14_whole_completion_loop :
       exists y, offered w cands y /\ buf (e_line s') = l ++ y ++ r /\ pos (e_line s') = blen l + blen y).
 Proof. exact circular_result. Qed.
 Print Assumptions C14_whole_completion_loop.
+
+(* the same inside an open undo group -- a vi insert session that has recorded [outer] so far: [end] closes both groups and
+   one Undo takes back the whole session (the completion AND what was typed before it in that session), giving the
+   text and the undo list from before the session; the session is the undo unit there (C05) *)
+Theorem C14_accept_in_session_then_undo :
+  forall (U : UData) (seg : str -> list str) (base outer : list change) (es : list event) (b00 b : lb),
+  forallb no_marker outer = true ->
+  valid base (buf b00) ->
+  let c := mkCs 1 (outer ++ UBegin :: base) in
+  let c2 := cs_notify_all U seg (fst (cs_begin c)) es in
+  valid (cs_undos c2) (buf b) ->
+  cs_undos c2 <> UBegin :: cs_undos c ->
+  exists b' d, cs_undo (fst (cs_end c2)) b 1 = Ok (mkCs 0 base, b', d) /\ buf b' = buf b00.
+Proof. exact group_in_group_then_undo. Qed.
+Print Assumptions C14_accept_in_session_then_undo.
+
+(* both, on the whole model: vi, candidates foobar / foobaz. (1) `fo` Tab Esc u: the read starts in insert mode with no
+   group open, the Undo gives back `fo`. (2) `x` Esc a `fo` Tab Esc u: the completion happens inside the session opened by
+   `a`, the Undo gives back `x`. *)
+Example C14_example_undo_outside_and_inside_a_session :
+  let cfg := mk_config Vi CTCircular true 80 true [[102;111;111;98;97;114]; [102;111;111;98;97;122]]%N [] VKNone [] in
+  fst (read_line ex_U cfg [62; 32]%N None [] (KillRing.kr_new 60)
+                 (mkIn [] [[Ch 102]; [Ch 111]; [Ch 9]; [Ch 27]; [Ch 117]; [Ch 13]]%N)) = OLine [102; 111]%N
+  /\ fst (read_line ex_U cfg [62; 32]%N None [] (KillRing.kr_new 60)
+                    (mkIn [] [[Ch 120]; [Ch 27]; [Ch 97]; [Ch 102]; [Ch 111]; [Ch 9]; [Ch 27]; [Ch 117]; [Ch 13]]%N)) = OLine [120]%N.
+Proof. vm_compute. split; reflexivity. Qed.
 
 (* non-vacuity: "cd fo| | wc", candidates foobar, foobaz: Tab Tab shows foobaz in place; Enter keeps it *)
 Example C14_example :
